@@ -8,6 +8,7 @@ usage: python3-vt selftest/global_twins.py [--mode unparse|rename|both] [--props
             captured by a nested scope) gets the suffix `_rn`; then the file is re-emitted by ast.unparse
   algebra : x**2 -> x*x for plain names, numeric constant moved to the right of * and +  (same real-number value; IEEE-identical except x*x)
   branches: `if c: A else: B` -> `if not c: B else: A`
+  pyx-comments: comment-only and blank lines removed from every .pyx / .pxd (line numbers of the compiled sources change)
 The rewritten tree lives in a scratch `git worktree` under a mkdtemp() and is removed afterwards.  Exit 0 iff every check exits 0 on every rewritten tree.
 (.pyx sources are left alone: there is no Cython-emitting back end here; hand-written .pyx twins live in selftest/refactors/.)
 """
@@ -127,7 +128,36 @@ class Branches(ast.NodeTransformer):
         return node
 
 
+def rewrite_pyx_comments(tree_dir):
+    """every comment-only line and every blank line of every .pyx / .pxd is dropped (all line numbers of the compiled sources change)"""
+    n = 0
+    for pat in ('TidalPy/**/*.pyx', 'TidalPy/**/*.pxd'):
+        for f in glob.glob(os.path.join(tree_dir, pat), recursive=True):
+            lines = open(f).read().split('\n')
+            out = []
+            in_doc = None
+            for ln in lines:
+                st = ln.strip()
+                # keep everything inside triple-quoted strings untouched
+                for q in ('"""', "'''"):
+                    if in_doc is None and st.count(q) % 2 == 1: in_doc = q; break
+                    if in_doc == q and st.count(q) % 2 == 1: in_doc = None; out.append(ln); st = None; break
+                if st is None: continue
+                if in_doc is not None:
+                    out.append(ln); continue
+                if st.startswith('#') and not st.startswith('# cython:') and not st.startswith('# distutils:'):
+                    continue
+                if st == '':
+                    continue
+                out.append(ln)
+            open(f, 'w').write('\n'.join(out) + '\n')
+            n += 1
+    return n
+
+
 def rewrite(tree_dir, mode):
+    if mode == 'pyx-comments':
+        return rewrite_pyx_comments(tree_dir)
     n = 0
     for f in glob.glob(os.path.join(tree_dir, 'TidalPy/**/*.py'), recursive=True):
         src = open(f).read()
@@ -189,7 +219,7 @@ def main():
     ap.add_argument('--jobs', type=int, default=8)
     a = ap.parse_args()
     bad = []
-    for mode in (('unparse', 'rename', 'algebra', 'branches') if a.mode in ('both', 'all') else (a.mode,)):
+    for mode in (('unparse', 'rename', 'algebra', 'branches', 'pyx-comments') if a.mode in ('both', 'all') else (a.mode,)):
         bad += run(mode, a.props.split(','), a.jobs)
     print('global twins:', 'all silent' if not bad else f'{len(bad)} not silent: {bad}')
     sys.exit(0 if not bad else 1)
